@@ -135,8 +135,10 @@ def indep_codes(col):
     return [ranks[v] for v in col]
 
 
-def run_pipeline(frame, label, h, mode, cap, r):
-    """real mixed_rank_graph; returns dict(rows, evaluated=[(combination, triplet)], codes={name: list} | None, error)"""
+def run_pipeline(frame, label, h, mode, cap, r, warmup=False):
+    """real mixed_rank_graph; returns dict(rows, evaluated=[(combination, triplet)], codes={name: list} | None, error).
+    `warmup`: the sampler's counters are not fresh – an earlier batch of the same process ranked the first columns only, under a
+    cap of 2 (uneven evaluation counts), as happens when constructed columns come and go between batches"""
     import pandas as pd
     import outrank.core_ranking as cr
     _quiet()
@@ -144,6 +146,14 @@ def run_pipeline(frame, label, h, mode, cap, r):
     df = pd.DataFrame({name: list(vals) for name, vals in frame})
     args = types.SimpleNamespace(heuristic=h, label_column=label, target_ranking_only=mode, combination_number_upper_bound=cap,
                                  reference_model_JSON='', mi_stratified_sampling_ratio=r)
+    if warmup and len(frame) >= 3:
+        feats = [name for name, _ in frame if name != label]
+        keep = set(feats[:max(1, len(feats) // 2)]) | {label}
+        try:
+            wargs = types.SimpleNamespace(**{**vars(args), 'combination_number_upper_bound': 2, 'heuristic': 'Constant'})
+            cr.mixed_rank_graph(df[[name for name, _ in frame if name in keep]], wargs, SyncPool(), PBar())
+        except Exception:      # noqa: BLE001 – history only
+            pass
     evaluated = []
     seen = {}
     orig = cr.get_importances_estimate_pairwise
@@ -341,7 +351,7 @@ def gen_runs(rng, names):
         r = 1.0
         if 'MI-numba' in h and rng.random() < 0.12:
             r = rng.choice([0.5, 0.25, 0.9, 0.3])
-        runs.append({'heuristic': h, 'mode': mode, 'cap': cap, 'r': r})
+        runs.append({'heuristic': h, 'mode': mode, 'cap': cap, 'r': r, 'warmup': rng.random() < 0.25})
     return runs
 
 
@@ -459,7 +469,7 @@ def evaluate(ctx: Ctx, cases, oracle_only=False):
         jobs = []
         rgroups = {}
         for run in c['runs']:
-            out = run_pipeline(frame, label, run['heuristic'], run['mode'], run['cap'], run['r'])
+            out = run_pipeline(frame, label, run['heuristic'], run['mode'], run['cap'], run['r'], run.get('warmup', False))
             rr = r_exact(__import__('numpy').float32(run['r']))
             entry['runs'].append({'run': run, 'out': out, 'r': rr})
             rgroups.setdefault(rr, []).append(len(entry['runs']) - 1)
